@@ -52,7 +52,9 @@ def main_for(prop, tier, replay=None):
     else:
         quick = tier == "quick"
         solvers = ("linear", "lp") if prop in ("C17", "C04") else ("linear",)
-        mut = (6 if quick else 40) if prop == "C02" else 0
+        # accepted single-point Sierra mutants are run too: for C02 (must complete) and C17 (a mutant accepted by a
+        # weakened static check must still respect the declared ap changes)
+        mut = {"C02": (6 if quick else 40), "C17": (4 if quick else 30)}.get(prop, 0)
         jobs = corpus_jobs(tier, want_mutants=mut, solvers=solvers, e2e_limit=(120 if quick else None))
     src_of = {j["id"]: {"kind": j["kind"], "path": j.get("path")} for j in jobs}
     out = run_tool(prop.lower(), jobs, vectors=(4 if tier == "quick" else 10),
